@@ -95,21 +95,22 @@ def terminates(stmts):
 
 
 class State:
-    __slots__ = ("env", "heap", "exit", "occ", "ver", "dead", "dkind", "dval")
+    __slots__ = ("env", "heap", "exit", "occ", "ver", "reg", "dead", "dkind", "dval")
 
-    def __init__(self, env, heap, exit_, occ=None, ver=None):
+    def __init__(self, env, heap, exit_, occ=None, ver=None, reg=None):
         self.env, self.heap, self.exit = env, heap, exit_
         self.occ = occ if occ is not None else {}
-        self.ver = ver if ver is not None else {}       # region root -> heap token of its last possible mutation
+        self.ver = ver if ver is not None else {}       # value -> heap token of the last possible mutation of its storage
+        self.reg = reg if reg is not None else {}       # value -> frozenset of the values that may share its storage
         self.dead, self.dkind, self.dval = False, None, None
 
     def copy(self):
-        s = State(dict(self.env), self.heap, self.exit, dict(self.occ), dict(self.ver))
+        s = State(dict(self.env), self.heap, self.exit, dict(self.occ), dict(self.ver), dict(self.reg))
         s.dead, s.dkind, s.dval = self.dead, self.dkind, self.dval
         return s
 
     def take(self, o):
-        self.env, self.heap, self.exit, self.occ, self.ver = o.env, o.heap, o.exit, o.occ, o.ver
+        self.env, self.heap, self.exit, self.occ, self.ver, self.reg = o.env, o.heap, o.exit, o.occ, o.ver, o.reg
         self.dead, self.dkind, self.dval = o.dead, o.dkind, o.dval
 
 
@@ -223,7 +224,6 @@ class FuncGraph:
         self.cls_name = cls_name
         self.outer_env = outer_env or {}
         self.tuples = {}
-        self.parent = {}
         self.probing = None
         self.consts = {}
         self.bound = {}
@@ -247,24 +247,31 @@ class FuncGraph:
         self.pre[x] = parts
         return x
 
-    def root(self, vn):
-        r = self.parent.get(vn, vn)
-        while r != self.parent.get(r, r):
-            r = self.parent[r]
-        if vn != r:
-            self.parent[vn] = r
-        return r
-
-    def union(self, a, b):
-        """a and b may share storage (a view, an element, an attribute, the result of a method of b)."""
-        if not (isinstance(a, str) and isinstance(b, str)) or a.startswith("G:") or b.startswith("G:"):
+    def union(self, st, a, b):
+        """a and b may share storage (a view, an element, an attribute, the result of a method of b).  The relation is
+        part of the state: what one arm of a branch relates does not leak into the other."""
+        if not (isinstance(a, str) and isinstance(b, str)) or a.startswith("G:") or b.startswith("G:") or a == b:
             return
-        ra, rb = self.root(a), self.root(b)
-        if ra != rb:
-            self.parent[ra] = rb
+        ra, rb = st.reg.get(a) or frozenset((a,)), st.reg.get(b) or frozenset((b,))
+        if ra is rb or a in rb:
+            return
+        new = ra | rb
+        for m in new:
+            st.reg[m] = new
 
     def versions(self, st, children):
-        return [(st.ver.get(self.root(c), "-") if isinstance(c, str) and st.ver else "-") for c in children]
+        # keyed by the value itself (not by the representative of its region, which depends on the order of unions)
+        return [(self.version_of(st, c) if isinstance(c, str) and st.ver else "-") for c in children]
+
+    def version_of(self, st, c, depth=0):
+        v = st.ver.get(c)
+        if v is not None:
+            return v
+        p = self.pre.get(c)
+        if p and p[0] == "phi" and len(p) == 4 and depth < 6:      # a value chosen by a condition: so is its version
+            a, b = self.version_of(st, p[2], depth + 1), self.version_of(st, p[3], depth + 1)
+            return a if a == b else self.phi(p[1], a, b)
+        return "-"
 
     def node(self, st, kind, *children, identity=False, heap_read=False):
         """A computed value.  It depends on its operands and on the last possible mutation of the storage they belong to;
@@ -283,7 +290,8 @@ class FuncGraph:
         """The storage these values belong to may have been mutated by the effect just recorded."""
         for v in vns:
             if isinstance(v, str) and not v.startswith("G:"):
-                st.ver[self.root(v)] = st.heap
+                for m in st.reg.get(v) or (v,):
+                    st.ver[m] = st.heap
 
     def phi(self, c, a, b):
         """phi in normal form: pushed through equal constructors down to the first difference, so that
@@ -292,6 +300,12 @@ class FuncGraph:
             return a
         if a is None or b is None:
             return self.h("phi?", c, a, b)
+        # a choice nested under the same condition is already decided: phi(c, phi(c, x, _), phi(c, _, y)) = phi(c, x, y)
+        pa, pb = self.pre.get(a), self.pre.get(b)
+        if pa and pa[0] == "phi" and len(pa) == 4 and pa[1] == c:
+            return self.phi(c, pa[2], b)
+        if pb and pb[0] == "phi" and len(pb) == 4 and pb[1] == c:
+            return self.phi(c, a, pb[3])
         key = (c, a, b)
         r = self.phimemo.get(key)
         if r is not None:
@@ -387,7 +401,7 @@ class FuncGraph:
             self.bound[vn] = (callee, cls, kind, b)
             return vn
         v = self.node(st, "attr", b, n.attr, heap_read=True)
-        self.union(v, b)
+        self.union(st, v, b)
         return v
 
     def e_Subscript(self, n, st):
@@ -395,7 +409,7 @@ class FuncGraph:
         i = self.expr(n.slice, st)
         sliced = isinstance(n.slice, ast.Slice) or (isinstance(n.slice, ast.Tuple) and any(isinstance(e, ast.Slice) for e in n.slice.elts))
         v = self.node(st, "item", b, i, heap_read=True)       # a slice shares (or copies) the storage of b: same region
-        self.union(v, b)
+        self.union(st, v, b)
         return v
 
     def e_Slice(self, n, st):
@@ -536,11 +550,17 @@ class FuncGraph:
         except ValueError:
             return None
         auto, idxs = 0, []
-        for lit, field, spec, conv in fields:
+        nested = {}
+        for fi, (lit, field, spec, conv) in enumerate(fields):
             if field is None:
                 continue
-            if (spec and "{" in spec) or not (field == "" or field.isdigit() or field.isidentifier()):
+            if not (field == "" or field.isdigit() or field.isidentifier()):
                 return None
+            if spec and "{" in spec:
+                # the whole spec is one replacement field: "{:{}}".format(v, fmt) = f"{v:{fmt}}"
+                if not (spec.startswith("{") and spec.endswith("}") and spec.count("{") == 1):
+                    return None
+                nested[fi] = spec[1:-1]
             if field == "":
                 idxs.append(auto)
                 auto += 1
@@ -548,21 +568,38 @@ class FuncGraph:
                 idxs.append(int(field))
             else:
                 idxs.append(field)
-        pos = {i for i in idxs if isinstance(i, int)}
-        kw = {i for i in idxs if isinstance(i, str)}
+            if fi in nested:
+                inner = nested[fi]
+                if inner == "":
+                    nested[fi] = auto
+                    auto += 1
+                elif inner.isdigit():
+                    nested[fi] = int(inner)
+                elif inner.isidentifier():
+                    nested[fi] = inner
+                else:
+                    return None
+        used_nested = list(nested.values())
+        pos = {i for i in idxs + used_nested if isinstance(i, int)}
+        kw = {i for i in idxs + used_nested if isinstance(i, str)}
         if pos != set(range(len(n.args))) or kw != {k.arg for k in n.keywords}:
             return None                   # unused or missing argument: leave the call alone
         argv = [self.expr(a, st) for a in n.args]
         kwv = {k.arg: self.expr(k.value, st) for k in n.keywords}
         parts, it = [], iter(idxs)
-        for lit, field, spec, conv in fields:
+        for fi, (lit, field, spec, conv) in enumerate(fields):
             if lit:
                 parts.append(("lit", lit))
             if field is None:
                 continue
             idx = next(it)
             v = argv[idx] if isinstance(idx, int) else kwv[idx]
-            specv = self.h("const", "str", repr(spec)) if spec else "-"
+            if fi in nested:
+                ni = nested[fi]
+                nv = argv[ni] if isinstance(ni, int) else kwv[ni]
+                specv = self.fstr(st, [("fv", nv, -1, "-")])
+            else:
+                specv = self.h("const", "str", repr(spec)) if spec else "-"
             parts.append(("fv", v, ord(conv) if conv else -1, specv))
         return self.fstr(st, parts)
 
@@ -678,7 +715,7 @@ class FuncGraph:
                 env[p] = self.expr(defaults[p], State({}, self.h("heap0"), self.h("exit0")))
         for nm in assigned_names(callee.body):
             env.setdefault(nm, None)
-        sub = State(env, st.heap, st.exit, dict(st.occ), dict(st.ver))
+        sub = State(env, st.heap, st.exit, dict(st.occ), dict(st.ver), dict(st.reg))
         saved = (self.f, self.cls_name, self.self_name, self.callee, self.nest, self.outer_env, self.stack, self.depth, self._outside_cache)
         self.f, self.cls_name = callee, cls
         first = (a.posonlyargs + a.args)[:1]
@@ -694,7 +731,7 @@ class FuncGraph:
             self.f, self.cls_name, self.self_name, self.callee, self.nest, self.outer_env, self.stack, self.depth, self._outside_cache = saved
         if not (sub.dead and sub.dkind == "iret"):
             return None            # never returns normally: leave it opaque
-        st.heap, st.exit, st.occ, st.ver = sub.heap, sub.exit, sub.occ, sub.ver
+        st.heap, st.exit, st.occ, st.ver, st.reg = sub.heap, sub.exit, sub.occ, sub.ver, sub.reg
         self.inlined.add(key)
         self.ctx.consumed[key] = self.ctx.consumed.get(key, 0) + 1
         return sub.dval
@@ -729,7 +766,7 @@ class FuncGraph:
         if cls != "value":
             for x in [recv] + list(argv) + kwvals:
                 if x is not None:
-                    self.union(callvn, x)
+                    self.union(st, callvn, x)
         return callvn
 
     def e_Lambda(self, n, st):
@@ -813,13 +850,13 @@ class FuncGraph:
             b = self.expr(t.value, st)
             self.effect(st, "setattr", b, t.attr, v)
             self.touch(st, b)
-            self.union(v, b)              # the stored value is now reachable from b
+            self.union(st, v, b)              # the stored value is now reachable from b
         elif isinstance(t, ast.Subscript):
             b = self.expr(t.value, st)
             i = self.expr(t.slice, st)
             self.effect(st, "setitem", b, i, v)
             self.touch(st, b)
-            self.union(v, b)
+            self.union(st, v, b)
         elif isinstance(t, ast.Starred):
             self.bind(t.value, v, st)
         else:
@@ -883,7 +920,19 @@ class FuncGraph:
         ver = {}
         for k in set(s1.ver) | set(s2.ver):
             ver[k] = self.phi(c, s1.ver.get(k, "-"), s2.ver.get(k, "-"))
-        st.env, st.occ, st.heap, st.exit, st.ver = env, occ, heap, exit_, ver
+        reg = dict(s1.reg)
+        seen = set()
+        for rset in s2.reg.values():
+            if id(rset) in seen:
+                continue
+            seen.add(id(rset))
+            new = set(rset)
+            for m in rset:
+                new |= reg.get(m, frozenset())
+            new = frozenset(new)
+            for m in new:
+                reg[m] = new
+        st.env, st.occ, st.heap, st.exit, st.ver, st.reg = env, occ, heap, exit_, ver, reg
         st.dead, st.dkind, st.dval = False, None, None
 
     def branch(self, test, st, then_fn, else_fn, loop):
@@ -1021,32 +1070,56 @@ class FuncGraph:
         if isinstance(t, ast.Name):
             cur = self.e_Name(ast.Name(id=t.id, ctx=ast.Load()), st)
             v = self.expr(s.value, st)
+            if self.immutable(cur):
+                # an int / float / str / bool cannot be changed in place: `x op= y` is `x = x op y`
+                st.env[t.id] = self.node(st, "bin", type(s.op).__name__, cur, v)
+                return
             r = self.node(st, "iop", type(s.op).__name__, cur, v)
             self.effect(st, "inplace", r)
-            self.union(r, cur)
+            self.union(st, r, cur)
             self.touch(st, cur)
             st.env[t.id] = r
         elif isinstance(t, ast.Attribute):
             b = self.expr(t.value, st)
             cur = self.node(st, "attr", b, t.attr, heap_read=True)
-            self.union(cur, b)
+            self.union(st, cur, b)
             v = self.expr(s.value, st)
             r = self.node(st, "iop", type(s.op).__name__, cur, v)
             self.effect(st, "setattr", b, t.attr, r)
-            self.union(r, b)
+            self.union(st, r, b)
             self.touch(st, b)
         elif isinstance(t, ast.Subscript):
             b = self.expr(t.value, st)
             i = self.expr(t.slice, st)
             cur = self.node(st, "item", b, i, heap_read=True)
-            self.union(cur, b)
+            self.union(st, cur, b)
             v = self.expr(s.value, st)
             r = self.node(st, "iop", type(s.op).__name__, cur, v)
             self.effect(st, "setitem", b, i, r)
-            self.union(r, b)
+            self.union(st, r, b)
             self.touch(st, b)
         else:
             raise Unsupported("augassign target")
+
+    def immutable(self, vn):
+        """Certainly a number, string or bool: a literal, an item of `range(..)`, the result of len / int / float / str /
+        round / abs on anything, or arithmetic on such values."""
+        p = self.pre.get(vn)
+        if not p:
+            return False
+        if p[0] == "const":
+            return p[1] in ("int", "float", "str", "bool", "complex")
+        if p[0] == "loopitem":
+            it = self.pre.get(p[2], ())
+            key = self.pre.get(it[1], ()) if len(it) >= 2 and it[0] == "n" else ()
+            return len(key) > 1 and key[0] == "call" and key[1] == "G:range"
+        if p[0] == "n" and len(p) >= 2:
+            key = self.pre.get(p[1], ())
+            if key and key[0] == "call" and key[1] in ("G:len", "G:int", "G:float", "G:str", "G:round", "G:bool", "G:ord"):
+                return True
+            if key and key[0] == "bin" and key[1] in ("Add", "Sub", "Mult", "FloorDiv", "Mod", "Pow", "Div"):
+                return self.immutable(key[2]) and self.immutable(key[3])
+        return False
 
     def s_Return(self, s, st, loop):
         v = self.expr(s.value, st) if s.value is not None else NONE
@@ -1150,6 +1223,7 @@ class FuncGraph:
         st.heap = self.h("loopheap", loopfp, st.heap)
         st.exit = self.h("loopexit", loopfp, st.exit)
         st.occ = b.occ
+        st.reg = b.reg
         for r, v in b.ver.items():
             if st.ver.get(r) != v:
                 st.ver[r] = self.h("loopver", loopfp, st.ver.get(r))
@@ -1243,6 +1317,7 @@ class FuncGraph:
             hs.heap = self.h("excheap", tryfp, entry.heap)
             hs.exit = self.h("excexit", tryfp, entry.exit)
             hs.occ = dict(body.occ)
+            hs.reg = dict(body.reg)
             hs.ver = {r: self.h("excver", tryfp, entry.ver.get(r), v) for r, v in body.ver.items()}
             tvn = self.expr(hnd.type, hs) if hnd.type is not None else "-"
             self.effect(hs, "except", hi, tvn)
@@ -1258,7 +1333,7 @@ class FuncGraph:
         st.take(cur)
         if s.finalbody:
             if st.dead:
-                f = State(dict(st.env), self.h("finheap", self.final(st, loop)), st.exit, dict(st.occ), dict(st.ver))
+                f = State(dict(st.env), self.h("finheap", self.final(st, loop)), st.exit, dict(st.occ), dict(st.ver), dict(st.reg))
                 self.block(s.finalbody, f, loop)
                 if f.dead:
                     st.take(f)
